@@ -3090,7 +3090,9 @@ class Trimesh(Geometry3D):
           Number of faces each vertex is included in
         """
         # get degree through sparse matrix
-        degree = np.array(self.faces_sparse.sum(axis=1)).flatten()
+        # convert to CSR first which merges the duplicate entry
+        # of a face that references the same vertex more than once
+        degree = np.array(self.faces_sparse.tocsr().sum(axis=1)).flatten()
         return degree
 
     @cache_decorator
